@@ -11,7 +11,9 @@ import (
 	"github.com/google/martian/v3"
 	_ "github.com/google/martian/v3/fifo"
 	_ "github.com/google/martian/v3/header"
+	_ "github.com/google/martian/v3/method"
 	_ "github.com/google/martian/v3/pingback"
+	_ "github.com/google/martian/v3/querystring"
 	_ "github.com/google/martian/v3/status"
 	"github.com/google/martian/v3/zzverif/vf"
 )
@@ -20,6 +22,9 @@ const hv = `{"header.Verifier": {"name": "X-Exp", "value": "1"}}`
 const hv2 = `{"header.Verifier": {"name": "X-Exp2", "value": "1"}}`
 const sv = `{"status.Verifier": {"statusCode": 200}}`
 const pb = `{"pingback.Verifier": {"scheme": "http", "host": "h", "path": "/ping"}}`
+const qv = `{"querystring.Verifier": {"name": "k", "value": "1"}}`
+const qp = `{"querystring.Verifier": {"name": "k"}}`
+const mv = `{"method.Verifier": {"method": "POST"}}`
 const tr = `{"header.Append": {"name": "X-Trace", "value": "t"}}`
 
 // vmodel describes one verifier of a configuration: when it is evaluated.
@@ -28,6 +33,9 @@ type vmodel struct {
 	second   bool // checks X-Exp2 instead of X-Exp
 	onTrue   bool // evaluated only when the filter condition holds
 	onFalse  bool // evaluated only when it does not
+	qsValue  bool // query string verifier expecting k=1
+	qsKey    bool // query string verifier expecting the key k to be present
+	method   bool // method verifier expecting POST
 	pingback bool // pingback verifier: unmet until a matching request has been seen since the last reset
 	seen     bool
 	reqFail  int
@@ -45,6 +53,7 @@ var shapes = []struct {
 	{`{"header.Filter": {"name": "X-Cond", "value": "1", "modifier": ` + hv + `, "else": ` + hv2 + `}}`, []vmodel{{onTrue: true}, {onFalse: true, second: true}}},
 	{`{"fifo.Group": {"modifiers": [{"header.Filter": {"name": "X-Cond", "value": "1", "modifier": ` + sv + `, "else": ` + hv + `}}]}}`, []vmodel{{status: true, onTrue: true}, {onFalse: true}}},
 	{`{"fifo.Group": {"modifiers": [{"fifo.Group": {"modifiers": [` + pb + `]}}, ` + hv + `]}}`, []vmodel{{pingback: true}, {}}},
+	{`{"fifo.Group": {"modifiers": [` + qv + `, {"fifo.Group": {"modifiers": [` + qp + `, ` + mv + `]}}]}}`, []vmodel{{qsValue: true}, {qsKey: true}, {method: true}}},
 }
 
 func flatCount(err error, tag string) int {
@@ -68,9 +77,10 @@ func flatCount(err error, tag string) int {
 func VerifC13History() {
 	sh := shapes[vf.Choice("shape", len(shapes))]
 	vs := append([]vmodel(nil), sh.vs...)
-	hasPingback := false
+	hasPingback, hasQuery := false, false
 	for _, v := range vs {
 		hasPingback = hasPingback || v.pingback
+		hasQuery = hasQuery || v.qsValue || v.qsKey || v.method
 	}
 	m := NewModifier()
 	vf.Assert(post(m, sh.cfg) == 200, "configuration-accepted")
@@ -87,7 +97,20 @@ func VerifC13History() {
 			if hasPingback && vf.Bool("request-is-the-pingback") {
 				path = "/ping"
 			}
-			req := &http.Request{Method: "GET", URL: &url.URL{Scheme: "http", Host: "h", Path: path}, Host: "h", Proto: "HTTP/1.1", ProtoMajor: 1, ProtoMinor: 1,
+			rawQuery, meth := "", "GET"
+			keyPresent, valueMatches := false, false
+			if hasQuery {
+				queries := []struct {
+					raw            string
+					present, match bool
+				}{{"j=1", false, false}, {"k=", true, false}, {"k=1", true, true}, {"k=&k=1", true, true}}
+				q := queries[vf.Choice("query", len(queries))]
+				rawQuery, keyPresent, valueMatches = q.raw, q.present, q.match
+				if vf.Bool("method-post") {
+					meth = "POST"
+				}
+			}
+			req := &http.Request{Method: meth, URL: &url.URL{Scheme: "http", Host: "h", Path: path, RawQuery: rawQuery}, Host: "h", Proto: "HTTP/1.1", ProtoMajor: 1, ProtoMinor: 1,
 				Header: http.Header{"X-Exp": {exp}, "X-Exp2": {exp2}, "X-Cond": {cond}}, Body: ioutil.NopCloser(bytes.NewReader(nil))}
 			ctx, remove, err := martian.TestContext(req, nil, nil)
 			vf.Assert(err == nil, "test-context")
@@ -113,6 +136,12 @@ func VerifC13History() {
 					if v.pingback {
 						if path == "/ping" {
 							v.seen = true
+						}
+						continue
+					}
+					if v.qsValue || v.qsKey || v.method {
+						if (v.qsValue && !valueMatches) || (v.qsKey && !keyPresent) || (v.method && meth != "POST") {
+							v.reqFail++
 						}
 						continue
 					}
